@@ -32,6 +32,19 @@ CONFIGS = [
 ]
 
 
+def _dist_stmt(r, fs, i):
+    f = fs[i]
+    lo, hi = (-(1 << (f["w"] - 1)), (1 << (f["w"] - 1)) - 1) if f["s"] else (0, (1 << f["w"]) - 1)
+    ws = []
+    for _ in range(r.randint(2, 4)):
+        a = r.randint(lo, hi)
+        if r.random() < 0.5:
+            ws.append({"single": I(a), "w": I(r.choice([1, 1, 2, 3, 5]))})
+        else:
+            ws.append({"lo": I(a), "hi": I(r.randint(a, min(hi, a + 5))), "w": I(r.choice([1, 1, 2, 3, 5]))})
+    return {"k": "dist", "e": F(i), "weights": ws}
+
+
 def gen(rng):
     g = solvecheck.Gen(rng, {"samesign": True, "relational": 0.4, "soft": 0.08, "big": 0.05, "maxstmts": 3, "enum": 0.0})
     scn = g.scenario()
@@ -44,6 +57,12 @@ def gen(rng):
         st.append({"k": "solve_order", "before": [a, b], "after": [c]})
         st.append({"k": "expr", "e": B("le", F(a), F(c))})
         st.append({"k": "expr", "e": B("ne", F(b), F(c))})
+    # dist statements, sometimes two over one field (the swizzler then draws which of them steers the call)
+    dr = [i for i in rnd if not fs[i]["enums"] and fs[i]["w"] >= 2]
+    if dr and rng.random() < 0.4:
+        i = rng.choice(dr)
+        for _ in range(rng.choice([1, 2, 2])):
+            rng.choice(scn["blocks"])["stmts"].insert(0, _dist_stmt(rng, fs, i))
     scn.pop("calls")
     ops = [{"op": "new"}]
     explicit = rng.random() < 0.75
